@@ -416,6 +416,14 @@ fn supplemental_lists(v_ix: &rt::Ix, pre: &Ledger, post: &Ledger, salt: u64, idx
         return;
     }
     let Some(lg) = legs(&c, pre) else { return };
+    // only when the route already carries the canonical arrays of both legs: a route planned on an older price may run
+    // off its arrays (or over a merely named one), and extra arrays then legitimately let it see more of the path
+    let a = wpix::two_hop_args(&c);
+    let canon1 = crate::gen::swap_tick_arrays(&lg.s1, &lg.w1, a.a_to_b_one);
+    let canon2 = crate::gen::swap_tick_arrays(&lg.s2, &lg.w2, a.a_to_b_two);
+    if !canon1.iter().all(|k| lg.sa1.tick_arrays.contains(k)) || !canon2.iter().all(|k| lg.sa2.tick_arrays.contains(k)) {
+        return;
+    }
     let pick = |wk: &Pubkey, canon: &[Pubkey; 3], n: usize| -> Vec<Pubkey> {
         let mut v: Vec<Pubkey> = decode::tick_arrays_of_pool(pre, wk).into_iter().map(|(k, _)| k).collect();
         v.extend_from_slice(canon);
